@@ -182,8 +182,7 @@ func (c *Ctx) constGlobal(st *State, p PtrV) (Val, bool) {
 		if !ok {
 			return nil, false
 		}
-		// re-establish the (immutable) contents in the current memory: a semantic no-op
-		c.storeLiftedMem(st, id, lv, sl.Elem(), typeKey(sl.Elem()), "")
+		_ = lv // contents are served from the constant table at load time (see load, Kind 2)
 		n := i64(int64(len(vals)))
 		return SliceV{id, i64(0), n, n, sl.Elem()}, true
 	}
@@ -238,22 +237,21 @@ func (c *Ctx) constElems(gi *globalInfo, elem types.Type) ([]constant.Value, boo
 func (c *Ctx) constInnerArray(vals []constant.Value, elem types.Type, n int64) (Val, bool) {
 	// returns lifted value (leaves: Array BV64 leaf)
 	if srt, ok := scalarSort(elem); ok && (isBV(srt) || srt == "Bool") {
+		// constant table as an ite-chain function over the index (pure bit-vector reasoning, no array theory)
 		z := c.zero(elem).(Sc)
-		term := fmt.Sprintf("((as const (Array %s %s)) %s)", BV64, srt, z.T)
+		ts := make([]string, len(vals))
 		for i, v := range vals {
-			if v == nil {
-				continue
+			e := z
+			if v != nil {
+				e = c.constOf(v, elem).(Sc)
 			}
-			e := c.constOf(v, elem).(Sc)
-			if e.T == z.T {
-				continue
-			}
-			term = fmt.Sprintf("(store %s %s %s)", term, i64(int64(i)), e.T)
+			ts[i] = e.T
 		}
+		term := balancedTree(ts, 0, len(ts), z.T)
 		c.n++
-		nm := fmt.Sprintf("ctab_%d", c.n)
-		c.decls = append(c.decls, fmt.Sprintf("(define-fun %s () (Array %s %s) %s)", nm, BV64, srt, term))
-		return Sc{nm, "(Array " + BV64 + " " + srt + ")"}, true
+		nm := fmt.Sprintf("ctabf_%d", c.n)
+		c.decls = append(c.decls, fmt.Sprintf("(define-fun %s ((i %s)) %s %s)", nm, BV64, srt, term))
+		return Sc{"@fn:" + nm, "(Array " + BV64 + " " + srt + ")"}, true
 	}
 	if isString(elem) {
 		d := fmt.Sprintf("((as const (Array %s %s)) EMPTY8)", BV64, INNER8)
